@@ -457,3 +457,24 @@ Proof.
     rewrite (Hcs c (or_introl eq_refl)). apply IH. intros c' Hc'. apply Hcs. now right. }
   now rewrite G.
 Qed.
+
+(* frame creation point: when no frame exists no defer statement has run *)
+Theorem machine_frame_eq_spec sh tr :
+  (frame_created sh tr = true -> consistent (effective sh) tr) ->
+  (frame_created sh tr = false -> tr = []) ->
+  machine_frame sh tr = spec sh tr.
+Proof.
+  intros Hc Hn. unfold machine_frame.
+  destruct (frame_created sh tr) eqn:E.
+  - apply machine_eff_eq_spec. apply Hc. reflexivity.
+  - rewrite (Hn eq_refl). reflexivity.
+Qed.
+
+Theorem machine_frame_outcome_eq_spec sh kinds tr cur :
+  (frame_created sh tr = true -> consistent (effective sh) tr) ->
+  (frame_created sh tr = false -> tr = []) ->
+  machine_frame_outcome sh kinds tr cur = spec_outcome sh kinds tr cur.
+Proof.
+  intros Hc Hn. unfold machine_frame_outcome, spec_outcome.
+  now rewrite (machine_frame_eq_spec sh tr Hc Hn).
+Qed.
